@@ -903,4 +903,222 @@ theorem deleteEcu_alone_false_tx :
     (expected { deleteEcu := some ["A"] } dupTxEx).map (·.frames.map (·.tx)) = some [[]] := by
   decide
 
+/-! ## every combination of the options that neither select nor rename -/
+
+theorem foldl_inv {α : Type} (step : KMat → α → KMat) (inv : KMat → Prop) (hI : ∀ m a, inv m → inv (step m a)) :
+    ∀ (l : List α) (m : KMat), inv m → inv (l.foldl step m)
+  | [], _, h => h
+  | a :: l, m, h => by
+    rw [List.foldl_cons]
+    exact foldl_inv step inv hI l _ (hI m a h)
+
+def optStep {α : Type} (x : Option α) (step : α → KMat → KMat) (m : KMat) : KMat :=
+  match x with
+  | some a => step a m
+  | none => m
+
+theorem optStep_core {α : Type} (x : Option α) (step sstep : α → KMat → KMat)
+    (hA : ∀ a m, core (step a m) = sstep a (core m)) (m : KMat) :
+    core (optStep x step m) = optStep x sstep (core m) := by
+  cases x with
+  | none => rfl
+  | some a => exact hA a m
+
+/-- frame names survive a map that keeps each frame's name -/
+theorem namesNodup_map (m : KMat) (e : List String) (g : KFrame → KFrame) (hg : ∀ f, (g f).name = f.name) (h : namesNodup m) :
+    namesNodup { ecus := e, frames := m.frames.map g } := by
+  unfold namesNodup
+  show ((m.frames.map g).map (·.name)).Nodup
+  rw [List.map_map]
+  have : m.frames.map ((fun f : KFrame => f.name) ∘ g) = m.frames.map (·.name) :=
+    List.map_congr_left (fun f _ => hg f)
+  rw [this]
+  exact h
+
+/-! ### phase 1: deleteEcu, several patterns -/
+
+def inv1 (m : KMat) : Prop := namesNodup m ∧ invD m
+
+theorem stepE_inv' (m : KMat) (e : String) (h : invD m) : invD (stepE m e) := by
+  by_cases he : e ∈ m.ecus
+  · exact stepE_inv m e he h
+  · unfold stepE
+    have : (!m.ecus.contains e) = true := by
+      have : m.ecus.contains e = false := by
+        rw [Bool.eq_false_iff]; intro hc; exact he (List.contains_iff_mem.1 hc)
+      rw [this]; rfl
+    rw [if_pos this]
+    exact h
+
+theorem stepE_names (m : KMat) (e : String) (h : namesNodup m) : namesNodup (stepE m e) := by
+  unfold stepE
+  split
+  · exact h
+  · exact namesNodup_map m _ (eraseF e) (fun _ => rfl) h
+
+theorem stepE_inv1 (m : KMat) (e : String) (h : inv1 m) : inv1 (stepE m e) :=
+  ⟨stepE_names m e h.1, stepE_inv' m e h.2⟩
+
+theorem deleteEcu1_inv1 (m : KMat) (pat : String) (h : inv1 m) : inv1 (deleteEcu1 m pat) := by
+  rw [deleteEcu1_eq]
+  exact foldl_inv stepE inv1 stepE_inv1 _ m h
+
+theorem inv1_init {m : KMat} (h : uniqueNames m) (hr : ∀ f ∈ m.frames, f.tx.Nodup ∧ ∀ s ∈ f.sigs, s.receivers.Nodup) :
+    inv1 (init m) := ⟨namesNodup_init h, invD_init h hr⟩
+
+theorem phase1_core (l : List String) (m : KMat) (h : inv1 m) :
+    core (l.foldl deleteEcu1 m) = l.foldl sDeleteEcu (core m) :=
+  core_foldl deleteEcu1 sDeleteEcu inv1 (fun m a hm => deleteEcu1_core m a hm.2) deleteEcu1_inv1 l m h
+
+theorem phase1_names (l : List String) (m : KMat) (h : inv1 m) : namesNodup (l.foldl deleteEcu1 m) :=
+  (foldl_inv deleteEcu1 inv1 deleteEcu1_inv1 l m h).1
+
+/-! ### phase 2: the steps that look frames up by name (and those between them) -/
+
+theorem addReceiver_I (m : KMat) (p : String × String) (h : namesNodup m) : namesNodup (stepAddReceiver m p) := by
+  apply namesNodup_map m m.ecus _ _ h
+  intro f
+  show (if globMatch p.1 f.name then _ else f).name = f.name
+  split <;> rfl
+
+theorem go_names (o n : Nat) : ∀ fs : List KFrame, (changeFrameId1.go o n fs).map (·.name) = fs.map (·.name)
+  | [] => rfl
+  | f :: t => by
+    rw [go_cons]
+    split
+    · rfl
+    · rw [List.map_cons, List.map_cons, go_names o n t]
+
+theorem changeId_I (m : KMat) (p : Nat × Nat) (h : namesNodup m) : namesNodup (stepChangeId m p) := by
+  unfold namesNodup
+  show ((changeFrameId1.go p.1 p.2 m.frames).map (·.name)).Nodup
+  rw [go_names]
+  exact h
+
+def mp2 (o : Opts) (m : KMat) : KMat :=
+  (o.unsetFrameFd.getD []).foldl (stepSetFd false)
+    ((o.setFrameFd.getD []).foldl (stepSetFd true)
+      ((o.changeFrameId.getD []).foldl stepChangeId
+        ((o.addFrameReceiver.getD []).foldl stepAddReceiver
+          ((o.deleteFrame.getD []).foldl stepDeleteFrame m))))
+
+def sp2 (o : Opts) (m : KMat) : KMat :=
+  (o.unsetFrameFd.getD []).foldl (sSetFd false)
+    ((o.setFrameFd.getD []).foldl (sSetFd true)
+      ((o.changeFrameId.getD []).foldl sChangeId
+        ((o.addFrameReceiver.getD []).foldl sAddReceiver
+          ((o.deleteFrame.getD []).foldl sDeleteFrame m))))
+
+theorem phase2_core (o : Opts) (m : KMat) (h : namesNodup m) : core (mp2 o m) = sp2 o (core m) := by
+  unfold mp2 sp2
+  have h1 := foldl_inv stepDeleteFrame namesNodup deleteFrame_I (o.deleteFrame.getD []) m h
+  have h2 := foldl_inv stepAddReceiver namesNodup addReceiver_I (o.addFrameReceiver.getD []) _ h1
+  have h3 := foldl_inv stepChangeId namesNodup changeId_I (o.changeFrameId.getD []) _ h2
+  have h4 := foldl_inv (stepSetFd true) namesNodup (setFd_I true) (o.setFrameFd.getD []) _ h3
+  rw [core_foldl (stepSetFd false) (sSetFd false) namesNodup (setFd_A false) (setFd_I false) _ _ h4,
+    core_foldl (stepSetFd true) (sSetFd true) namesNodup (setFd_A true) (setFd_I true) _ _ h3,
+    core_foldl' stepChangeId sChangeId changeId_A,
+    core_foldl' stepAddReceiver sAddReceiver addReceiver_A,
+    core_foldl stepDeleteFrame sDeleteFrame namesNodup deleteFrame_A deleteFrame_I _ _ h]
+
+theorem sp2_core (o : Opts) (m : KMat) : core (sp2 o m) = sp2 o (core m) := by
+  unfold sp2
+  rw [core_foldl' (sSetFd false) (sSetFd false) (sSetFd_B false),
+    core_foldl' (sSetFd true) (sSetFd true) (sSetFd_B true),
+    core_foldl' sChangeId sChangeId sChangeId_B,
+    core_foldl' sAddReceiver sAddReceiver sAddReceiver_B,
+    core_foldl' sDeleteFrame sDeleteFrame sDeleteFrame_B]
+
+/-! ### phase 3: the steps that need no hypothesis -/
+
+def mp3 (o : Opts) (m : KMat) : KMat :=
+  optStep o.recalcDLC stepRecalc
+    (optStep o.deleteFrameAttributes sDelFrameAttrs
+      (optStep o.deleteSignalAttributes sDelSigAttrs
+        ((fun m => if o.deleteZeroSignals then stepDeleteZero m else m)
+          ((o.deleteSignal.getD []).foldl stepDeleteSignal
+            (optStep o.cutLongFrames stepCutLong
+              (optStep o.skipLongDlc stepSkipLong m))))))
+
+def sp3 (o : Opts) (m : KMat) : KMat :=
+  optStep o.recalcDLC sRecalc
+    (optStep o.deleteFrameAttributes sDelFrameAttrs
+      (optStep o.deleteSignalAttributes sDelSigAttrs
+        ((fun m => if o.deleteZeroSignals then sDeleteZero m else m)
+          ((o.deleteSignal.getD []).foldl sDeleteSignal
+            (optStep o.cutLongFrames sCutLong
+              (optStep o.skipLongDlc sSkipLong m))))))
+
+theorem ite_core (b : Bool) (step sstep : KMat → KMat) (hA : ∀ m, core (step m) = sstep (core m)) (m : KMat) :
+    core ((fun m => if b then step m else m) m) = (fun m => if b then sstep m else m) (core m) := by
+  cases b
+  · rfl
+  · exact hA m
+
+theorem phase3_core (o : Opts) (m : KMat) : core (mp3 o m) = sp3 o (core m) := by
+  unfold mp3 sp3
+  rw [optStep_core _ stepRecalc sRecalc recalc_A,
+    optStep_core _ sDelFrameAttrs sDelFrameAttrs sDelFrameAttrs_B,
+    optStep_core _ sDelSigAttrs sDelSigAttrs sDelSigAttrs_B,
+    ite_core _ stepDeleteZero sDeleteZero deleteZero_A,
+    core_foldl' stepDeleteSignal sDeleteSignal sDeleteSignal_B,
+    optStep_core _ stepCutLong sCutLong cutLong_A,
+    optStep_core _ stepSkipLong sSkipLong skipLong_A]
+
+theorem sp3_core (o : Opts) (m : KMat) : core (sp3 o m) = sp3 o (core m) := by
+  unfold sp3
+  rw [optStep_core _ sRecalc sRecalc sRecalc_B,
+    optStep_core _ sDelFrameAttrs sDelFrameAttrs sDelFrameAttrs_B,
+    optStep_core _ sDelSigAttrs sDelSigAttrs sDelSigAttrs_B,
+    ite_core _ sDeleteZero sDeleteZero sDeleteZero_B,
+    core_foldl' sDeleteSignal sDeleteSignal sDeleteSignal_B,
+    optStep_core _ sCutLong sCutLong sCutLong_B,
+    optStep_core _ sSkipLong sSkipLong sSkipLong_B]
+
+/-! ### the pipeline under `plainOptions` -/
+
+def modelPipe (o : Opts) (m : KMat) : KMat := mp3 o (mp2 o ((o.deleteEcu.getD []).foldl deleteEcu1 (init m)))
+def specPipe (o : Opts) (m : KMat) : KMat := sp3 o (sp2 o ((o.deleteEcu.getD []).foldl sDeleteEcu m))
+
+/-- the options that neither select nor rename (the hypothesis `plainOptions` of Props/C18.lean) -/
+def plainOpts (o : Opts) : Prop :=
+  o.ecus = none ∧ o.frames = none ∧ o.renameEcu = none ∧ o.renameFrame = none ∧ o.renameSignal = none ∧ o.deleteObsoleteEcus = false
+
+theorem convert_plain (o : Opts) (m : KMat) (ho : plainOpts o) : convert o m = some (modelPipe o m) := by
+  obtain ⟨ecus, frames, renameEcu, deleteEcu, renameFrame, deleteFrame, addFrameReceiver, changeFrameId, setFrameFd,
+    unsetFrameFd, skipLongDlc, cutLongFrames, renameSignal, deleteSignal, deleteZeroSignals, deleteSignalAttributes,
+    deleteFrameAttributes, deleteObsoleteEcus, recalcDLC⟩ := o
+  obtain ⟨h1, h2, h3, h4, h5, h6⟩ := ho
+  dsimp only at h1 h2 h3 h4 h5 h6
+  subst h1 h2 h3 h4 h5 h6
+  cases skipLongDlc <;> cases cutLongFrames <;> cases deleteZeroSignals <;> cases deleteSignalAttributes <;>
+    cases deleteFrameAttributes <;> cases recalcDLC <;> rfl
+
+theorem expected_plain (o : Opts) (m : KMat) (ho : plainOpts o) : expected o m = some (specPipe o m) := by
+  obtain ⟨ecus, frames, renameEcu, deleteEcu, renameFrame, deleteFrame, addFrameReceiver, changeFrameId, setFrameFd,
+    unsetFrameFd, skipLongDlc, cutLongFrames, renameSignal, deleteSignal, deleteZeroSignals, deleteSignalAttributes,
+    deleteFrameAttributes, deleteObsoleteEcus, recalcDLC⟩ := o
+  obtain ⟨h1, h2, h3, h4, h5, h6⟩ := ho
+  dsimp only at h1 h2 h3 h4 h5 h6
+  subst h1 h2 h3 h4 h5 h6
+  cases skipLongDlc <;> cases cutLongFrames <;> cases deleteZeroSignals <;> cases deleteSignalAttributes <;>
+    cases deleteFrameAttributes <;> cases recalcDLC <;> rfl
+
+theorem modelPipe_core (o : Opts) (m : KMat) (h : uniqueNames m)
+    (hr : ∀ f ∈ m.frames, f.tx.Nodup ∧ ∀ s ∈ f.sigs, s.receivers.Nodup) :
+    core (modelPipe o m) = specPipe o (core m) := by
+  unfold modelPipe specPipe
+  have h0 := inv1_init h hr
+  rw [phase3_core, phase2_core o _ (phase1_names _ _ h0), phase1_core _ _ h0, core_init]
+
+theorem specPipe_core (o : Opts) (m : KMat) : core (specPipe o m) = specPipe o (core m) := by
+  unfold specPipe
+  rw [sp3_core, sp2_core, core_foldl' sDeleteEcu sDeleteEcu sDeleteEcu_B]
+
+theorem plain_options_combined_main (o : Opts) (m : KMat) (ho : plainOpts o) (h : uniqueNames m)
+    (hr : ∀ f ∈ m.frames, f.tx.Nodup ∧ ∀ s ∈ f.sigs, s.receivers.Nodup) :
+    (convert o m).map core = (expected o m).map core := by
+  rw [convert_plain o m ho, expected_plain o m ho, Option.map_some, Option.map_some, modelPipe_core o m h hr, specPipe_core]
+
+
 end CanVerif.Conv
